@@ -7,6 +7,7 @@ import (
 	"os"
 	"path/filepath"
 	"sort"
+	"sync"
 	"syscall"
 	"testing"
 	"time"
@@ -270,6 +271,11 @@ func runFaultCase(c faultCase) *Violation {
 		if err := sb.Persist(bad); err == nil {
 			return violation(prop, "persist/uncreatable-path", "Persist to a path in a missing directory returned nil")
 		}
+		// two overlapping fault-free WriteTo calls (this segment and a small other one) after all the
+		// failures: each destination must receive exactly its own image
+		if v := overlappingWriteTo(prop, sb, data); v != nil {
+			return v
+		}
 		// fault-free once more after all the failures
 		p4 := drive.NewPath("c17pa")
 		defer os.Remove(p4)
@@ -498,3 +504,66 @@ func TestC17(t *testing.T) {
 }
 
 func init() { c17.register() }
+
+// gateWriter collects what it is given; its first Write announces itself and waits (bounded) until
+// the other writer of the pair has been written to as well, so that the two WriteTo calls overlap.
+type gateWriter struct {
+	buf          bytes.Buffer
+	mine, theirs chan struct{}
+	once         sync.Once
+}
+
+func (g *gateWriter) Write(p []byte) (int, error) {
+	g.once.Do(func() {
+		close(g.mine)
+		select {
+		case <-g.theirs:
+		case <-time.After(2 * time.Second): // the calls do not overlap: fine, nothing to learn
+		}
+	})
+	return g.buf.Write(p)
+}
+
+var otherImage struct {
+	once sync.Once
+	sb   *zap.SegmentBase
+	data []byte
+}
+
+func overlappingWriteTo(prop string, sb *zap.SegmentBase, data []byte) *Violation {
+	otherImage.once.Do(func() {
+		b := &spec.BatchSpec{}
+		for i := 0; i < 3; i++ {
+			b.Docs = append(b.Docs, spec.DocSpec{ID: spec.B(fmt.Sprintf("other%d", i)), Fields: []spec.FieldSpec{{Name: "o", Type: 't', Stored: true, Value: []byte("other value"), Len: 1,
+				Tokens: []spec.TokenSpec{{Term: "o", Freq: 1}}}}})
+		}
+		seg, _, err := drive.Build(b, 1025)
+		if err != nil {
+			return
+		}
+		var buf bytes.Buffer
+		if _, err := seg.(*zap.SegmentBase).WriteTo(&buf); err == nil {
+			otherImage.sb, otherImage.data = seg.(*zap.SegmentBase), buf.Bytes()
+		}
+	})
+	if otherImage.sb == nil {
+		return nil
+	}
+	for round := 0; round < 3; round++ {
+		ca, cb := make(chan struct{}), make(chan struct{})
+		wa, wb := &gateWriter{mine: ca, theirs: cb}, &gateWriter{mine: cb, theirs: ca}
+		var ea, eb error
+		var wg sync.WaitGroup
+		wg.Add(2)
+		go func() { defer wg.Done(); ea = drive.Safe(func() error { _, e := sb.WriteTo(wa); return e }) }()
+		go func() { defer wg.Done(); eb = drive.Safe(func() error { _, e := otherImage.sb.WriteTo(wb); return e }) }()
+		wg.Wait()
+		if ea != nil || eb != nil {
+			return violation(prop, "nofault/overlapping-writeto-error", "two overlapping fault-free WriteTo calls: %v / %v", ea, eb)
+		}
+		if !bytes.Equal(wa.buf.Bytes(), data) || !bytes.Equal(wb.buf.Bytes(), otherImage.data) {
+			return violation(prop, "nofault/overlapping-writeto-bytes", "two overlapping fault-free WriteTo calls reported success, but the destinations received %d and %d bytes that are not the two images (%d and %d bytes)", wa.buf.Len(), wb.buf.Len(), len(data), len(otherImage.data))
+		}
+	}
+	return nil
+}
